@@ -8,6 +8,7 @@ From Coq Require Import String.
 From Coq Require Import List Ascii Bool NArith.
 Require Import Model.Text Model.ParamTypes Gen.Params Model.Lex Model.Ast Model.Scope Model.Ident Model.Fmt Model.Eval.
 Require Import Proofs.LexProofs Proofs.EvalProofs Proofs.StringProofs.
+Require Import Model.Parse Proofs.ParseProofs.
 Import ListNotations.
 Open Scope char_scope.
 
@@ -19,6 +20,12 @@ Theorem C18_string_is_one_token : forall stk ip q body rest,
   step (LS stk ip) (q :: body ++ q :: rest) = Emit ($"css_string", q :: body ++ [q]) (LS stk ip) (count_nl (q :: body ++ [q])) rest.
 Proof. intros stk ip q body rest [H | H]; [now apply step_string_init | now apply step_string_parn]. Qed.
 Print Assumptions C18_string_is_one_token.
+
+(* the reference parser hands the string token to the declaration unchanged *)
+Theorem C18_string_through_parser : forall f s rest,
+  parse_value (S (S f)) [$"t_semicolon"] (($"css_string", s) :: ($"t_semicolon", [";"]) :: rest) = POk ([VT s], false, $"t_semicolon", rest).
+Proof. exact string_value_parsed. Qed.
+Print Assumptions C18_string_through_parser.
 
 (* a value made of literal tokens (string tokens among them) evaluates to exactly these tokens *)
 Theorem C18_string_evaluates_to_itself : forall fuel sc v, forallb is_VT v = true -> eval_value (S fuel) sc v = ROk (map tok_str v).
